@@ -67,68 +67,89 @@ Proof.
   intros l Hl. rewrite <- (firstn_skipn k subs). apply in_or_app. left. exact Hl.
 Qed.
 
-(* the start marker of an invocation records the subscribers of the state the
-   call is made in *)
-Theorem fire_marker_is_state E f s o ev :
-  fired_event E o = Some ev ->
+(* the start marker of an invocation records the subscribers, on the producer
+   the call is made on, in the state the call is made in *)
+Theorem fire_marker_is_state E f s o p ev :
+  fired_event E o = Some (p, ev) ->
   match exec E (S f) s o with
   | Done _ t | Raised _ _ t =>
-      exists t', t = ObsFire (st_next s) ev (subscribers (st_subs s) (ev_type ev)) :: t'
+      exists t', t = ObsFire (st_next s) ev (subscribers (subs_of s p) (ev_type ev)) :: t'
   | OutOfFuel => True
   end.
 Proof.
-  intros Hf. rewrite (exec_fire_reduces E f s o ev Hf). unfold fire_ev.
+  intros Hf. rewrite (exec_fire_reduces E f s o p ev Hf). unfold fire_ev.
   destruct (deliver_all _ _ _ _ _) as [s1 t1|k s1 t1|]; [| |exact I]; eexists; reflexivity.
 Qed.
 
 (* ---------- subscribe / unsubscribe at the level of exec ---------- *)
-Lemma set_subs_same s : set_subs s (st_subs s) = s.
-Proof. destruct s; reflexivity. Qed.
+(* nothing changed: every producer's map, the pending listener programs and
+   the invocation counter are what they were *)
+Definition unchanged (s s' : state) : Prop :=
+  st_scripts s' = st_scripts s /\ st_next s' = st_next s /\ forall q, subs_of s' q = subs_of s q.
+
+Lemma subs_of_on_prod s p f q :
+  subs_of (on_prod s p f) q = if Nat.eqb q p then f (subs_of s p) else subs_of s q.
+Proof. unfold subs_of, on_prod. cbn. apply prod_subs_upd. Qed.
+
+Lemma on_prod_unchanged s p f : f (subs_of s p) = subs_of s p -> unchanged s (on_prod s p f).
+Proof.
+  intros H. split; [reflexivity|]. split; [reflexivity|]. intros q. rewrite subs_of_on_prod.
+  destruct (Nat.eqb q p) eqn:Eq; [|reflexivity]. apply Nat.eqb_eq in Eq. subst. exact H.
+Qed.
+
+Lemma on_prod_wfs s p f : (forall m, wf m -> wf (f m)) -> wfs (st_subs s) -> wfs (st_subs (on_prod s p f)).
+Proof. intros Hf H. cbn. apply wfs_upd; assumption. Qed.
 
 Definition oarg (o : option nat) : arg := match o with Some n => Good n | None => NoneArg end.
 
-Theorem add_op E f s et l :
-  exists s', exec E (S f) s (OAdd (Good et) (Good l)) = Done s' [] /\
+(* add_listener on producer p: the listener goes to the end of p's list for
+   that type unless it is there already; other types and other producers are
+   untouched *)
+Theorem add_op E f s p et l :
+  exists s', exec E (S f) s (OAdd p (Good et) (Good l)) = Done s' [] /\
     st_scripts s' = st_scripts s /\ st_next s' = st_next s /\
-    (wf (st_subs s) -> wf (st_subs s')) /\
-    forall et', subscribers (st_subs s') et' =
-      if Nat.eqb et' et then
-        (if memb l (subscribers (st_subs s) et) then subscribers (st_subs s) et
-         else subscribers (st_subs s) et ++ [l])
-      else subscribers (st_subs s) et'.
+    (wfs (st_subs s) -> wfs (st_subs s')) /\
+    forall q et', subscribers (subs_of s' q) et' =
+      if Nat.eqb q p && Nat.eqb et' et then
+        (if memb l (subscribers (subs_of s p) et) then subscribers (subs_of s p) et
+         else subscribers (subs_of s p) et ++ [l])
+      else subscribers (subs_of s q) et'.
 Proof.
-  eexists. split; [reflexivity|]. cbn.
-  split; [reflexivity|]. split; [reflexivity|]. split; [apply sub_add_wf|].
-  intros et'. apply sub_add_subscribers.
+  eexists. split; [reflexivity|].
+  split; [reflexivity|]. split; [reflexivity|]. split; [apply on_prod_wfs; intros m; apply sub_add_wf|].
+  intros q et'. rewrite subs_of_on_prod. destruct (Nat.eqb q p) eqn:Eq; cbn [andb]; [|reflexivity].
+  apply Nat.eqb_eq in Eq. subst q. apply sub_add_subscribers.
 Qed.
 
 (* a duplicate subscription is ignored: nothing at all changes *)
-Theorem add_duplicate_ignored E f s et l :
-  In l (subscribers (st_subs s) et) ->
-  exec E (S f) s (OAdd (Good et) (Good l)) = Done s [].
+Theorem add_duplicate_ignored E f s p et l :
+  In l (subscribers (subs_of s p) et) ->
+  exists s', exec E (S f) s (OAdd p (Good et) (Good l)) = Done s' [] /\ unchanged s s'.
 Proof.
-  intros H. cbn. rewrite (sub_add_present et l _ H), set_subs_same. reflexivity.
+  intros H. eexists. split; [reflexivity|]. apply on_prod_unchanged. apply sub_add_present. exact H.
 Qed.
 
-Theorem remove_op E f s et l : wf (st_subs s) ->
-  exists s', exec E (S f) s (ORemove (Good et) (Good l)) = Done s' [] /\
-    st_scripts s' = st_scripts s /\ st_next s' = st_next s /\ wf (st_subs s') /\
-    forall et', subscribers (st_subs s') et' =
-      if Nat.eqb et' et then without l (subscribers (st_subs s) et)
-      else subscribers (st_subs s) et'.
+Theorem remove_op E f s p et l : wfs (st_subs s) ->
+  exists s', exec E (S f) s (ORemove p (Good et) (Good l)) = Done s' [] /\
+    st_scripts s' = st_scripts s /\ st_next s' = st_next s /\ wfs (st_subs s') /\
+    forall q et', subscribers (subs_of s' q) et' =
+      if Nat.eqb q p && Nat.eqb et' et then without l (subscribers (subs_of s p) et)
+      else subscribers (subs_of s q) et'.
 Proof.
-  intros H. eexists. split; [reflexivity|]. cbn.
-  split; [reflexivity|]. split; [reflexivity|]. split; [apply sub_remove_wf; exact H|].
-  intros et'. apply sub_remove_subscribers. exact H.
+  intros H. eexists. split; [reflexivity|].
+  split; [reflexivity|]. split; [reflexivity|].
+  split; [apply on_prod_wfs; [intros m; apply sub_remove_wf|exact H]|].
+  intros q et'. rewrite subs_of_on_prod. destruct (Nat.eqb q p) eqn:Eq; cbn [andb]; [|reflexivity].
+  apply Nat.eqb_eq in Eq. subst q. apply sub_remove_subscribers. apply wfs_prod. exact H.
 Qed.
 
 (* unsubscribing a listener that is not subscribed is harmless *)
-Theorem remove_absent_harmless E f s et l :
-  ~ In l (subscribers (st_subs s) et) ->
-  exec E (S f) s (ORemove (Good et) (Good l)) = Done s [] /\
-  exec E (S f) s (ORemoveAll (Good et) (Good l)) = Done s [].
+Theorem remove_absent_harmless E f s p et l :
+  ~ In l (subscribers (subs_of s p) et) ->
+  (exists s', exec E (S f) s (ORemove p (Good et) (Good l)) = Done s' [] /\ unchanged s s') /\
+  (exists s', exec E (S f) s (ORemoveAll p (Good et) (Good l)) = Done s' [] /\ unchanged s s').
 Proof.
-  intros H. cbn. rewrite (sub_remove_absent et l _ H), set_subs_same. split; reflexivity.
+  intros H. split; (eexists; split; [reflexivity|]); apply on_prod_unchanged, sub_remove_absent, H.
 Qed.
 
 Lemma fold_remove_absent l ks : forall m,
@@ -139,12 +160,12 @@ Proof.
   rewrite (sub_remove_absent k l m (H k)). apply IH. exact H.
 Qed.
 
-Theorem remove_everywhere_absent_harmless E f s l :
-  (forall et, ~ In l (subscribers (st_subs s) et)) ->
-  exec E (S f) s (ORemoveAll NoneArg (Good l)) = Done s [].
+Theorem remove_everywhere_absent_harmless E f s p l :
+  (forall et, ~ In l (subscribers (subs_of s p) et)) ->
+  exists s', exec E (S f) s (ORemoveAll p NoneArg (Good l)) = Done s' [] /\ unchanged s s'.
 Proof.
-  intros H. cbn. unfold sub_remove_everywhere.
-  rewrite (fold_remove_absent l _ _ H), set_subs_same. reflexivity.
+  intros H. eexists. split; [reflexivity|]. apply on_prod_unchanged.
+  unfold sub_remove_everywhere. apply fold_remove_absent. exact H.
 Qed.
 
 Lemma sub_del_absent et m : lookup et m = None -> sub_del et m = m.
@@ -153,70 +174,73 @@ Proof.
   destruct (Nat.eqb k et); [discriminate|]. intros H. f_equal. apply IH. exact H.
 Qed.
 
-Theorem remove_type_absent_harmless E f s et : wf (st_subs s) ->
-  subscribers (st_subs s) et = [] ->
-  exec E (S f) s (ORemoveAll (Good et) NoneArg) = Done s [].
+Theorem remove_type_absent_harmless E f s p et : wfs (st_subs s) ->
+  subscribers (subs_of s p) et = [] ->
+  exists s', exec E (S f) s (ORemoveAll p (Good et) NoneArg) = Done s' [] /\ unchanged s s'.
 Proof.
-  intros Hw H. cbn. rewrite sub_del_absent, set_subs_same; [reflexivity|].
-  unfold subscribers in H. destruct (lookup et (st_subs s)) as [ls|] eqn:L; [|reflexivity].
-  exfalso. apply (wf_lookup_nonempty _ _ _ Hw L). exact H.
+  intros Hw H. eexists. split; [reflexivity|]. apply on_prod_unchanged. apply sub_del_absent.
+  unfold subscribers in H. destruct (lookup et (subs_of s p)) as [ls|] eqn:L; [|reflexivity].
+  exfalso. apply (wf_lookup_nonempty _ _ _ (wfs_prod _ p Hw) L). exact H.
 Qed.
 
 (* the four argument forms of remove_all_listeners *)
-Lemma remove_all_exec E f s oet ol :
-  exec E (S f) s (ORemoveAll (oarg oet) (oarg ol)) =
-  Done (set_subs s (remove_all oet ol (st_subs s))) [].
+Lemma remove_all_exec E f s p oet ol :
+  exec E (S f) s (ORemoveAll p (oarg oet) (oarg ol)) = Done (on_prod s p (remove_all oet ol)) [].
 Proof. destruct oet, ol; reflexivity. Qed.
 
-Theorem remove_all_op E f s oet ol : wf (st_subs s) ->
-  exists s', exec E (S f) s (ORemoveAll (oarg oet) (oarg ol)) = Done s' [] /\
-    st_scripts s' = st_scripts s /\ st_next s' = st_next s /\ wf (st_subs s') /\
-    forall et', subscribers (st_subs s') et' =
-                remove_all_spec oet ol (subscribers (st_subs s)) et'.
+Theorem remove_all_op E f s p oet ol : wfs (st_subs s) ->
+  exists s', exec E (S f) s (ORemoveAll p (oarg oet) (oarg ol)) = Done s' [] /\
+    st_scripts s' = st_scripts s /\ st_next s' = st_next s /\ wfs (st_subs s') /\
+    forall q et', subscribers (subs_of s' q) et' =
+      if Nat.eqb q p then remove_all_spec oet ol (subscribers (subs_of s p)) et'
+      else subscribers (subs_of s q) et'.
 Proof.
-  intros H. rewrite remove_all_exec. eexists. split; [reflexivity|]. cbn.
-  destruct (remove_all_characterised oet ol _ H) as [Hw Hs].
-  split; [reflexivity|]. split; [reflexivity|]. split; assumption.
+  intros H. rewrite remove_all_exec. eexists. split; [reflexivity|].
+  split; [reflexivity|]. split; [reflexivity|].
+  split; [apply on_prod_wfs; [intros m Hm; apply (remove_all_characterised oet ol m Hm)|exact H]|].
+  intros q et'. rewrite subs_of_on_prod. destruct (Nat.eqb q p) eqn:Eq; [|reflexivity].
+  apply (remove_all_characterised oet ol _ (wfs_prod _ p H)).
 Qed.
 
 (* remove_all_listeners(et, l) is remove_listener(et, l) *)
-Theorem remove_all_both_is_remove E fuel s et l :
-  exec E fuel s (ORemoveAll (Good et) (Good l)) = exec E fuel s (ORemove (Good et) (Good l)).
+Theorem remove_all_both_is_remove E fuel s p et l :
+  exec E fuel s (ORemoveAll p (Good et) (Good l)) = exec E fuel s (ORemove p (Good et) (Good l)).
 Proof. destruct fuel; reflexivity. Qed.
 
-Theorem has_listeners_op E f s : wf (st_subs s) ->
-  exists b, exec E (S f) s OHas = Done s [ObsHas b] /\
-    (b = true <-> exists et l, In l (subscribers (st_subs s) et)).
+Theorem has_listeners_op E f s p : wfs (st_subs s) ->
+  exists b, exec E (S f) s (OHas p) = Done s [ObsHas b] /\
+    (b = true <-> exists et l, In l (subscribers (subs_of s p) et)).
 Proof.
-  intros H. exists (has_listeners (st_subs s)). split; [reflexivity|]. apply has_listeners_iff. exact H.
+  intros H. exists (has_listeners (subs_of s p)). split; [reflexivity|].
+  apply has_listeners_iff, wfs_prod, H.
 Qed.
 
 (* ---------- error paths ---------- *)
-(* an operation that does not call listeners and raises leaves the producer as
-   it was, reports nothing, and (unless it is the listener program's own raise)
-   raises EventError *)
+(* an operation that does not call listeners and raises leaves every producer
+   as it was, reports nothing, and (unless it is the listener program's own
+   raise) raises EventError *)
 Theorem pure_raise_leaves_state s o k s' t :
   pure_step s o = Raised k s' t ->
   s' = s /\ t = [] /\ (is_event_error k = false -> k = EUser).
 Proof.
-  destruct o as [a l|a l|a l| |a c chk|ts a c chk|e|e|]; cbn;
+  destruct o as [p a l|p a l|p a l|p|p a c chk|p ts a c chk|p e|p e|]; cbn;
     try (destruct a as [et| |], l as [li| |]; cbn);
     intros H; inversion H; subst; repeat split; try reflexivity; cbn; intros; congruence.
 Qed.
 
 (* a refused event (bad event type argument, payload refused by the metadata,
    bad timestamp, not an event) raises EventError before anything is delivered
-   and leaves the producer untouched *)
+   and leaves the producers untouched *)
 Theorem refused_fire_raises E f s o :
-  (forall a l, o <> OAdd a l) -> (forall a l, o <> ORemove a l) -> (forall a l, o <> ORemoveAll a l) ->
-  o <> OHas -> o <> ORaise ->
+  (forall p a l, o <> OAdd p a l) -> (forall p a l, o <> ORemove p a l) -> (forall p a l, o <> ORemoveAll p a l) ->
+  (forall p, o <> OHas p) -> o <> ORaise ->
   fired_event E o = None ->
   exists k, exec E (S f) s o = Raised k s [] /\ is_event_error k = true.
 Proof.
   intros N1 N2 N3 N4 N5.
-  destruct o as [a l|a l|a l| |a c chk|ts a c chk|e|e|]; cbn [fired_event exec];
-    try (exfalso; first [apply (N1 _ _ eq_refl)|apply (N2 _ _ eq_refl)|apply (N3 _ _ eq_refl)
-                        |apply N4; reflexivity|apply N5; reflexivity]).
+  destruct o as [p a l|p a l|p a l|p|p a c chk|p ts a c chk|p e|p e|]; cbn [fired_event exec];
+    try (exfalso; first [apply (N1 _ _ _ eq_refl)|apply (N2 _ _ _ eq_refl)|apply (N3 _ _ _ eq_refl)
+                        |apply (N4 _ eq_refl)|apply N5; reflexivity]).
   - destruct (make_event E a c chk) as [ev|k] eqn:M; [discriminate|]. intros _.
     exists k. split; [reflexivity|]. eapply make_event_error_kind. exact M.
   - destruct (make_timed E ts a c chk) as [ev|k] eqn:M; [discriminate|]. intros _.
@@ -236,4 +260,18 @@ Proof.
       * pose proof (timed_event_keeps_timestamp _ _ _ _ _ _ M) as [Ht _]. rewrite Ht. discriminate.
       * intros _. exists k. split; [reflexivity|]. eapply make_timed_error_kind. exact M.
     + intros _. exists ENotTimedEvent. split; reflexivity.
+Qed.
+
+(* ---------- producers do not interfere ---------- *)
+(* an operation on producer p that does not fire leaves every other
+   producer's map as it was *)
+Theorem pure_step_other_producers s o s' t p :
+  (o = ORaise \/ exists a l, o = OAdd p a l \/ o = ORemove p a l \/ o = ORemoveAll p a l \/ o = OHas p) ->
+  pure_step s o = Done s' t ->
+  forall q, q <> p -> subs_of s' q = subs_of s q.
+Proof.
+  intros Ho H q Hq. apply Nat.eqb_neq in Hq.
+  destruct Ho as [-> | [a [l [-> | [-> | [-> | ->]]]]]]; cbn in H; try discriminate;
+    try (destruct a as [et| |], l as [li| |]; cbn in H; try discriminate);
+    inversion H; subst; try reflexivity; rewrite subs_of_on_prod, Hq; reflexivity.
 Qed.
